@@ -31,15 +31,19 @@ if missing and not args:
             f = os.path.join(os.environ.get("KAIRA_REPO", "/repo"), *parts[:i]) + ".py"
             if os.path.exists(f):
                 ids.append("::".join([os.path.relpath(f, os.environ.get("KAIRA_REPO", "/repo"))] + parts[i:] + [name])); break
-    with tempfile.TemporaryDirectory(prefix="kaira_baseline_") as d:
-        xml = os.path.join(d, "r.xml")
-        subprocess.run(["/venv/bin/python", "-m", "pytest", "-q", "-p", "no:cacheprovider", "--timeout=900", f"--junitxml={xml}"] + ids,
-                       cwd=os.environ.get("KAIRA_REPO", "/repo"), env=env, stdout=subprocess.PIPE, stderr=subprocess.STDOUT, text=True)
-        for tc in ET.parse(xml).getroot().iter("testcase"):
-            if not any(c.tag in ("failure", "error", "skipped") for c in tc):
-                passed.add(f"{tc.get('classname')}::{tc.get('name')}")
-    print("re-ran serially:", ids)
-    missing = sorted(stable - passed)
+    # up to 4 serial attempts: a few pinned tests draw unseeded random data (test_ssim_kernel_size fails now and then on any tree)
+    for attempt in range(4):
+        with tempfile.TemporaryDirectory(prefix="kaira_baseline_") as d:
+            xml = os.path.join(d, "r.xml")
+            subprocess.run(["/venv/bin/python", "-m", "pytest", "-q", "-p", "no:cacheprovider", "--timeout=900", f"--junitxml={xml}"] + ids,
+                           cwd=os.environ.get("KAIRA_REPO", "/repo"), env=env, stdout=subprocess.PIPE, stderr=subprocess.STDOUT, text=True)
+            for tc in ET.parse(xml).getroot().iter("testcase"):
+                if not any(c.tag in ("failure", "error", "skipped") for c in tc):
+                    passed.add(f"{tc.get('classname')}::{tc.get('name')}")
+        print(f"re-ran serially (attempt {attempt + 1}):", ids)
+        missing = sorted(stable - passed)
+        if not missing:
+            break
 print(f"stable_pass={len(stable)} passed_now={len(passed)} stable_not_passing={len(missing)}")
 for t in missing[:40]:
     print("  NOT PASSING:", t)
